@@ -1,24 +1,13 @@
 // C10 — retry re-executes exactly the unfinished part of a recorded run
-// (scheduler level: recorded vectors are produced by really running, stopping
-// or "crashing" an original run on the scripted executor, pass through the real
-// persistence encoding, and are retried with NewExecutionGraphForRetry +
-// Schedule).
+// (scheduler level; the machinery lives in harness/retrysim, shared with C03).
 package c10
 
 import (
 	"encoding/json"
-	"fmt"
-	"sort"
-	"strings"
-	"sync"
 	"testing"
-	"time"
 
-	"github.com/ErdemOzgen/blackdagger/internal/dag"
-	"github.com/ErdemOzgen/blackdagger/internal/dag/scheduler"
-	"github.com/ErdemOzgen/blackdagger/internal/persistence/model"
 	"github.com/ErdemOzgen/blackdagger/verifharness/rep"
-	"github.com/ErdemOzgen/blackdagger/verifharness/sim"
+	"github.com/ErdemOzgen/blackdagger/verifharness/retrysim"
 	"pgregory.net/rapid"
 )
 
@@ -26,300 +15,8 @@ const ID = "C10"
 
 func TestMain(m *testing.M) { rep.Main(m, ID) }
 
-// Case is one generated retry case.
-type Case struct {
-	Orig sim.Case `json:"orig"`
-	// Cut selects the recorded vector: <0 the state after the original run
-	// ended (finished, failed or stopped); >=0 the Cut-th status the agent would
-	// have persisted (index modulo the number of persisted statuses) — what a
-	// killed process leaves behind.
-	Cut        int            `json:"cut"`
-	RetryFail  map[string]int `json:"retryFail,omitempty"` // per step: fail-first script during the retry (0 or -1)
-	RetrySched []sim.Decision `json:"retrySched,omitempty"`
-	RetryMax   int            `json:"retryMax,omitempty"`
-	RetryDone  int            `json:"retryDone,omitempty"`
-	// Vector, when set (replay files of schedule-dependent vectors), overrides
-	// the original run: step name -> recorded status text.
-	Vector map[string]string `json:"vector,omitempty"`
-}
-
-func gen(t *rapid.T) Case {
-	o := sim.GenOpts{MaxSteps: 7, Retries: true, SetupFails: true, Stop: true}
-	if rep.Thorough() {
-		o.MaxSteps = 11
-	}
-	c := Case{Orig: sim.Gen(t, o)}
-	if rapid.IntRange(0, 2).Draw(t, "crash") == 0 {
-		c.Cut = rapid.IntRange(0, 5*len(c.Orig.Steps)+1).Draw(t, "cut")
-	} else {
-		c.Cut = -1
-	}
-	c.RetryFail = map[string]int{}
-	for _, s := range c.Orig.Steps {
-		if rapid.IntRange(0, 5).Draw(t, "rfail") == 0 {
-			c.RetryFail[s.Name] = -1
-		}
-	}
-	n := rapid.IntRange(0, len(c.Orig.Steps)+2).Draw(t, "nRetryDecisions")
-	for i := 0; i < n; i++ {
-		c.RetrySched = append(c.RetrySched, sim.Decision{
-			Pick:    rapid.IntRange(0, 7).Draw(t, "pick"),
-			Batch:   rapid.SampledFrom([]int{1, 1, 2, 3}).Draw(t, "batch"),
-			PreHalf: rapid.SampledFrom([]int{0, 0, 1}).Draw(t, "preHalf"),
-			Quiesce: rapid.SampledFrom([]int{0, 1, 2}).Draw(t, "quiesce"),
-		})
-	}
-	c.RetryMax = rapid.SampledFrom([]int{0, 0, 1, 2}).Draw(t, "retryMax")
-	c.RetryDone = rapid.IntRange(0, 2).Draw(t, "retryDone")
-	return c
-}
-
-// record runs the original run and returns the recorded vector in its
-// persisted (JSON) form, and how it was cut.
-func record(c *Case) (js string, how string, err error) {
-	if c.Vector != nil {
-		// synthetic vector (replay): build node data from the specs
-		steps, _ := sim.BuildSteps(&c.Orig)
-		var nd []scheduler.NodeData
-		for _, st := range steps {
-			nd = append(nd, scheduler.NodeData{Step: st, State: scheduler.NodeState{Status: statusOf(c.Vector[st.Name])}})
-		}
-		b, e := (&model.Status{Nodes: model.FromNodes(nd)}).ToJSON()
-		return string(b), "given", e
-	}
-	orig := c.Orig
-	env, e := sim.Prepare(&orig, nil)
-	if e != nil {
-		return "", "", e
-	}
-	defer env.Cleanup()
-	var snaps [][]scheduler.NodeData
-	snaps = append(snaps, env.G.NodeData()) // the status written before the run starts
-	var smu sync.Mutex
-	snap := func() {
-		nd := env.G.NodeData()
-		smu.Lock()
-		snaps = append(snaps, nd)
-		smu.Unlock()
-	}
-	// the agent persists a status at every done-channel hand-over and once
-	// 100 ms after the start, i.e. at an arbitrary instant of the run: every
-	// start / exit of a command is a candidate for that instant.
-	env.OnDone = func(*scheduler.Node) { snap() }
-	env.W.AddHook(func(w *sim.World, ev sim.Event, a *sim.Attempt) {
-		if ev.Kind == sim.EvEnter || ev.Kind == sim.EvExit {
-			snap()
-		}
-	})
-	r := env.Drive(sim.DefaultBound(&orig))
-	if r.Hang {
-		return "", "", fmt.Errorf("original run did not end: %s", r.HangInfo)
-	}
-	var vec []scheduler.NodeData
-	if c.Cut < 0 {
-		vec = env.G.NodeData()
-		how = "ended:" + r.Status
-	} else {
-		vec = snaps[c.Cut%len(snaps)]
-		how = "crashed"
-	}
-	b, e := (&model.Status{Nodes: model.FromNodes(vec)}).ToJSON()
-	return string(b), how, e
-}
-
-func statusOf(s string) scheduler.NodeStatus {
-	for _, st := range []scheduler.NodeStatus{scheduler.NodeStatusNone, scheduler.NodeStatusRunning, scheduler.NodeStatusError, scheduler.NodeStatusCancel, scheduler.NodeStatusSuccess, scheduler.NodeStatusSkipped} {
-		if st.String() == s {
-			return st
-		}
-	}
-	return scheduler.NodeStatusNone
-}
-
-// retry re-loads the persisted vector as the agent does and runs the retry.
-func retry(c *Case, js string, bound time.Duration) (*sim.Result, map[string]string, *sim.Case, error) {
-	st, err := model.StatusFromJSON(js)
-	if err != nil {
-		return nil, nil, nil, err
-	}
-	recorded := map[string]string{}
-	var nodes []*scheduler.Node
-	for _, n := range st.Nodes {
-		recorded[n.Step.Name] = n.Status.String()
-		nodes = append(nodes, n.ToNode())
-	}
-	c2 := c.Orig
-	c2.Steps = append([]sim.StepSpec(nil), c.Orig.Steps...)
-	for i := range c2.Steps {
-		c2.Steps[i].FailFirst = c.RetryFail[c2.Steps[i].Name]
-		c2.Steps[i].Hold = false
-		c2.Steps[i].IgnoreSig = false
-	}
-	c2.Stop, c2.TimeoutP, c2.KillAfterP, c2.HoldOpen = nil, 0, 0, 0
-	c2.Sched, c2.MaxActive, c2.Done = c.RetrySched, c.RetryMax, c.RetryDone
-	env, err := sim.Prepare(&c2, func([]dag.Step) (*scheduler.ExecutionGraph, error) {
-		return scheduler.NewExecutionGraphForRetry(sim.Quiet, nodes...)
-	})
-	if err != nil {
-		return nil, recorded, &c2, err
-	}
-	defer env.Cleanup()
-	return env.Drive(bound), recorded, &c2, nil
-}
-
-// mustRerun is the set R of the property: steps recorded failed / canceled /
-// running / not started, closed under "downstream of".
-func mustRerun(c *sim.Case, recorded map[string]string) map[string]bool {
-	R := map[string]bool{}
-	for _, s := range c.Steps {
-		switch recorded[s.Name] {
-		case "failed", "canceled", "running", "not started":
-			R[s.Name] = true
-		}
-	}
-	for changed := true; changed; {
-		changed = false
-		for _, s := range c.Steps {
-			if R[s.Name] {
-				continue
-			}
-			for _, d := range s.Depends {
-				if R[d] {
-					R[s.Name] = true
-					changed = true
-				}
-			}
-		}
-	}
-	return R
-}
-
-func judge(c2 *sim.Case, r *sim.Result, recorded map[string]string) string {
-	R := mustRerun(c2, recorded)
-	an := sim.Analyze(r.Trace)
-	kept := map[string]bool{}
-	for i := range c2.Steps {
-		s := &c2.Steps[i]
-		ex := sim.Executed(an, s.Name)
-		f := r.Final[s.Name]
-		if !R[s.Name] {
-			kept[s.Name] = true
-			if ex != 0 || (an[s.Name] != nil && len(an[s.Name].Creates) > 0) {
-				return fmt.Sprintf("step %q was recorded %q with nothing unfinished upstream, but the retry executed it %d time(s)", s.Name, recorded[s.Name], ex)
-			}
-			if f.Status != recorded[s.Name] {
-				return fmt.Sprintf("step %q was recorded %q and must keep its result, but is %q after the retry", s.Name, recorded[s.Name], f.Status)
-			}
-			continue
-		}
-		if f.Status == "not started" || f.Status == "running" {
-			return fmt.Sprintf("step %q (recorded %q, must be re-executed) is still %q after the retry ended", s.Name, recorded[s.Name], f.Status)
-		}
-		e := sim.Expect(c2, r, s)
-		switch {
-		case e.Blocked:
-			if ex != 0 {
-				return fmt.Sprintf("step %q executed %d time(s) in the retry although a dependency blocks it", s.Name, ex)
-			}
-			if f.Status != "canceled" && f.Status != "skipped" {
-				return fmt.Sprintf("step %q blocked by a dependency in the retry but reported %q", s.Name, f.Status)
-			}
-		case !e.Runnable:
-			if ex != 0 || f.Status != e.State {
-				return fmt.Sprintf("step %q (set-up fails) expected %q and no execution, got %q / %d", s.Name, e.State, f.Status, ex)
-			}
-		default:
-			if ex < 1 {
-				return fmt.Sprintf("step %q was recorded %q (or is downstream of an unfinished step) and nothing blocks it, but the retry never executed it (now %q)", s.Name, recorded[s.Name], f.Status)
-			}
-			if f.Status != e.State {
-				return fmt.Sprintf("step %q: retry script dictates %q, reported %q (%s)", s.Name, e.State, f.Status, f.Err)
-			}
-		}
-	}
-	if msg := sim.JudgeC01Kept(c2, r, kept); msg != "" {
-		return "dependency order violated during the retry: " + msg
-	}
-	return ""
-}
-
-func vectorKey(recorded map[string]string) string {
-	var ks []string
-	for k, v := range recorded {
-		ks = append(ks, k+"="+v)
-	}
-	sort.Strings(ks)
-	return strings.Join(ks, ",")
-}
-
-func check(t rep.Fataler, c Case) {
-	js, how, err := record(&c)
-	if err != nil {
-		if strings.Contains(err.Error(), "did not end") {
-			rep.Inconclusive(err.Error())
-			return
-		}
-		rep.Fail(t, ID, "sched", c, nil, "original run could not be prepared: %v", err)
-	}
-	bound := sim.DefaultBound(&c.Orig)
-	r, recorded, c2, err := retry(&c, js, bound)
-	if err != nil {
-		rep.Fail(t, ID, "sched", c, map[string]any{"recorded": recorded}, "retry of a recorded run refused: %v", err)
-	}
-	if r.Hang {
-		// bounded liveness: confirm with a 5x bound on the same recorded vector
-		r, recorded, c2, err = retry(&c, js, 5*bound)
-		if err == nil && r.Hang {
-			c.Vector = recorded
-			rep.Fail(t, ID, "sched", c, map[string]any{"recorded": recorded, "retry": r}, "the retry of the recorded vector {%s} never terminates: %s", vectorKey(recorded), r.HangInfo)
-		}
-		if err != nil {
-			rep.Inconclusive("retry confirm run failed to prepare")
-			return
-		}
-	}
-	if msg := judge(c2, r, recorded); msg != "" {
-		c.Vector = recorded
-		rep.Fail(t, ID, "sched", c, map[string]any{"recorded": recorded, "retry": r}, "recorded {%s}: %s", vectorKey(recorded), msg)
-	}
-	R := mustRerun(c2, recorded)
-	key := ""
-	if len(R) > 0 && len(R) < len(c2.Steps) {
-		key = rep.Hash(c.Orig.Key() + "|" + vectorKey(recorded) + "|" + r.Order)
-	}
-	labels := []string{"cut:" + how}
-	seen := map[string]bool{}
-	for _, v := range recorded {
-		if !seen[v] {
-			seen[v] = true
-			labels = append(labels, "vector-has:"+v)
-		}
-	}
-	switch {
-	case len(R) == 0:
-		labels = append(labels, "rerun:none")
-	case len(R) == len(c2.Steps):
-		labels = append(labels, "rerun:all")
-	default:
-		labels = append(labels, "rerun:proper-subset")
-	}
-	rep.Eval(key, labels...)
-	if key != "" && rep.WantSample() {
-		rep.Sample(map[string]any{"steps": c.Orig.Steps, "recorded": recorded, "mustRerun": keys(R), "retryOrder": r.Order, "final": r.Final})
-	}
-}
-
-func keys(m map[string]bool) []string {
-	var ks []string
-	for k := range m {
-		ks = append(ks, k)
-	}
-	sort.Strings(ks)
-	return ks
-}
-
 func TestProp(t *testing.T) {
-	rapid.Check(t, func(t *rapid.T) { check(t, gen(t)) })
+	rapid.Check(t, func(t *rapid.T) { retrysim.Check(t, ID, "sched", retrysim.Gen(t)) })
 }
 
 func TestReplay(t *testing.T) {
@@ -331,7 +28,10 @@ func TestReplay(t *testing.T) {
 	if err != nil {
 		t.Fatal(err)
 	}
-	var c Case
+	if cf.Sub != "sched" {
+		t.Skip("not a sched case")
+	}
+	var c retrysim.Case
 	if err := json.Unmarshal(cf.Case, &c); err != nil {
 		t.Fatal(err)
 	}
@@ -340,6 +40,6 @@ func TestReplay(t *testing.T) {
 		reps = 5
 	}
 	for i := 0; i < reps; i++ {
-		check(t, c)
+		retrysim.Check(t, ID, "sched", c)
 	}
 }
